@@ -15,27 +15,67 @@ RULE = ("(a) all strings up to the tier's length over {a C : / \\ # . f i l e} t
         "every current directory inside and outside the tree, the four ways of naming the top resource (absolute path, "
         "relative path, file: URL, named file object) for schemas and configurations, %include / schema src / extends "
         "references relative to the containing resource with decoy files of the same relative name elsewhere, reused loader "
-        "objects across chdir; fragments rejected. non-trivial = a load through >= 2 resources; distinct by (layout, cwd, way)")
+        "objects across chdir; fragments rejected; names with a blank at their very start / very end (after the extension) beside a "
+        "neighbour without it, references spelled by pathname2url / literally / mixed; an alphabet sweep: every character at the "
+        "start / inside / end of a name and every ordered pair of punctuation characters inside one, as top resource (4 entry "
+        "points) and as target of %include / <import src> / extends per spelling. non-trivial = a load through >= 2 resources; distinct by (layout, cwd, way)")
 
 ALPHA = ["a", "C", ":", "/", "\\", "#", ".", "f", "i", "l", "e"]
 NAMECHARS = ["a", "B", "7", " ", "-", "_", ".", "~", "+", "&", ";", "[", "]", "é", "ü", "e\u0301", "u\u0308", "\u4e2d", "\u212b"]   # (precomposed AND decomposed letters: a file name is not normalised)
 
 
 _used_names = set()
+FIRSTCHARS = [c for c in NAMECHARS if c != " "]
+EDGE = 0.2      # chance of a blank at the very start / at the very end (after the extension) of a random name
 
 
 def rand_name(rng, ext):
-    """a fresh name (case-insensitively distinct from every name handed out for the current tree)"""
+    """a fresh name (case-insensitively distinct from every name handed out for the current tree).  Every character of the
+    alphabet may stand anywhere in the name, a blank also at its very start and at its very end, AFTER the extension (a blank
+    is an ordinary file-name character: 'app.conf ' and 'app.conf' are two files)"""
     for _ in range(200):
-        n = rng.choice("abXY") + "".join(rng.choice(NAMECHARS) for _ in range(rng.randint(0, 4)))
-        n = (n.rstrip(" .") or "x") + ext
+        first = rng.choice("abXY") if rng.random() < 0.75 else rng.choice(FIRSTCHARS)
+        n = first + "".join(rng.choice(NAMECHARS) for _ in range(rng.randint(0, 4))) + ext
+        if rng.random() < EDGE:
+            n = " " + n
+        if rng.random() < EDGE:
+            n = n + " "
+        if n.strip() in ("", ".", ".."):
+            continue
         if n.lower() not in _used_names:
             _used_names.add(n.lower())
             return n
     raise RuntimeError("name space exhausted")
 
 
-def build_tree(rng, root):
+REFMODES = ("quoted", "literal", "mixed")
+ROOTNAMES = ["tree", " tree", "tree x", "[tree]", "tree~1", "tree ", "t[1]ree;+&"]      # the root of a scratch tree: seen in every absolute path, and in the relative ones from outside
+_UNRESERVED = set("abcdefghijklmnopqrstuvwxyzABCDEFGHIJKLMNOPQRSTUVWXYZ0123456789-_.~")
+
+
+def spell(path, mode, rng=None):
+    """a relative URL reference that names the relative path `path` (components joined by '/').
+    quoted  = urllib's pathname2url (everything but letters, digits and - _ . ~ percent-escaped);
+    literal = every character of the alphabet written as it is: these characters have no URL meaning, so the reference
+              'part[1].conf' names the file 'part[1].conf'.  Only the blank stays %20: white space belongs to the SYNTAX that
+              carries the reference (trimmed around an %include argument and a src attribute, separator inside extends);
+    mixed   = per character literal or escaped (now and then also a letter as %41)"""
+    if mode == "quoted":
+        return urllib.request.pathname2url(path)
+    out = []
+    for ch in path:
+        if ch == "/":
+            out.append(ch)
+        elif ch == " ":
+            out.append("%20")
+        elif mode == "literal" or rng.random() < (0.9 if ch in _UNRESERVED else 0.5):
+            out.append(ch)
+        else:
+            out.append("".join("%%%02X" % b for b in ch.encode("utf-8")))
+    return "".join(out)
+
+
+def build_tree(rng, root, refmode="quoted"):
     """returns dict describing a schema chain and a config with includes, with decoys"""
     _used_names.clear()
     d1 = rand_name(rng, "")
@@ -52,7 +92,8 @@ def build_tree(rng, root):
     w(os.path.join(deep, basen), "<schema><key name='who' default='right'/></schema>")
     os.makedirs(os.path.join(root, d2), exist_ok=True)
     w(os.path.join(root, d2, basen), "<schema><key name='who' default='decoy'/></schema>")
-    q = urllib.request.pathname2url
+    def q(relpath):
+        return spell(relpath, refmode, rng)
     w(os.path.join(lib, midn), "<schema extends=%s><key name='mid' default='m'/></schema>" % _qa(q(d2 + "/" + basen)))
     w(os.path.join(root, topn), "<schema extends=%s><multikey name='k'/><key name='inc'/></schema>" % _qa(q(d1 + "/" + midn)))
     # configuration: main (root) includes a (lib) which includes b (lib/deep); decoys of b's relative name in root
@@ -107,6 +148,207 @@ def build_tree(rng, root):
 def _qa(s):
     from xml.sax.saxutils import quoteattr
     return quoteattr(s)
+
+
+POSITIONS = ("start", "middle", "end")
+WHERE = {"start": "at the very start of", "middle": "inside", "end": "at the very end of", "pair": "around a digit inside"}
+PAIRCHARS = [c for c in NAMECHARS if not c[0].isalnum()] + ["\u00e9"]     # the punctuation of the alphabet and one letter beyond ASCII
+
+
+def sweep_specs():
+    """every character of the alphabet at every position of a name, and every ordered pair of its punctuation characters
+    around a digit inside a name ('x[1]y', 'x+1&y', 'x 1 y', ...)"""
+    return [((c,), pos) for c in NAMECHARS for pos in POSITIONS] + [((c1, c2), "pair") for c1 in PAIRCHARS for c2 in PAIRCHARS]
+
+
+def place(chars, pos, stem, ext=""):
+    """the name stem+ext with the character at the very start, inside, or at the very end (after the extension); a pair inside"""
+    if pos == "start":
+        return chars[0] + stem + ext
+    if pos == "middle":
+        return stem[:1] + chars[0] + stem[1:] + ext
+    if pos == "pair":
+        return stem[:1] + chars[0] + "1" + chars[1] + stem[1:] + ext
+    return stem + ext + chars[0]
+
+
+def _w(path, text):
+    with open(path, "w", encoding="utf-8") as f:
+        f.write(text)
+
+
+def build_sweep(rng, root):
+    """the alphabet sweep: for every character of the file-name alphabet and every position in a name (very start, inside,
+    very end) one directory named that way, holding files named that way: a configuration and a schema that are loaded as TOP
+    resources (each refers to a plainly named sibling: the base against which references are joined is observed too), and a
+    leaf configuration / a component / a base schema that are REFERRED TO from plainly named resources in the root, once per
+    way of spelling a reference (spell()).  The tag of item i is unique, so what a load returns tells which files it read."""
+    items = []
+    for i, (c, pos) in enumerate(sweep_specs()):
+        tag = "tag%d" % i
+        dname = place(c, pos, "sd%d" % i)
+        d = os.path.join(root, dname)
+        os.makedirs(d)
+        it = {"i": i, "char": "".join(c), "position": pos, "tag": tag, "dir": d,
+              "conf": place(c, pos, "cf%d" % i, ".conf"), "schema": place(c, pos, "sc%d" % i, ".xml"),
+              "leaf": place(c, pos, "lf%d" % i, ".conf"), "comp": place(c, pos, "ty%d" % i, ".xml"), "base": place(c, pos, "bs%d" % i, ".xml")}
+        _w(os.path.join(d, it["conf"]), "k %s\n%%include part.conf\n" % tag)
+        _w(os.path.join(d, "part.conf"), "inc %s\n" % tag)
+        _w(os.path.join(d, it["schema"]), "<schema extends='base.xml'><key name='tag' default='%s'/></schema>" % tag)
+        _w(os.path.join(d, "base.xml"), "<schema><key name='who' default='%s'/></schema>" % tag)
+        _w(os.path.join(d, it["leaf"]), "k %s\n" % tag)
+        _w(os.path.join(d, it["comp"]), "<schema><sectiontype name='ty%d'><key name='ik' default='%s'/></sectiontype></schema>" % (i, tag))
+        _w(os.path.join(d, it["base"]), "<schema><key name='bk%d' default='%s'/></schema>" % (i, tag))
+        items.append(it)
+    # decoys of the plainly named siblings where a reference joined against the wrong base would look for them
+    _w(os.path.join(root, "part.conf"), "inc WRONG-BASE\n")
+    _w(os.path.join(root, "base.xml"), "<schema><key name='who' default='WRONG-BASE'/></schema>")
+    referrers = {}
+    for mode in REFMODES:
+        refs = {k: [spell(os.path.basename(it["dir"]) + "/" + it[k], mode, rng) for it in items] for k in ("leaf", "comp", "base")}
+        referrers[mode] = {"refs": refs, "files": write_referrers(root, "all-" + mode, refs, items)}
+    return {"items": items, "referrers": referrers}
+
+
+def write_referrers(dirpath, stem, refs, items):
+    """three plainly named resources in dirpath that refer to the given items: by %include, by <import src>, by extends"""
+    inc, imp, ext = (os.path.join(dirpath, stem + e) for e in ("-inc.conf", "-imp.xml", "-ext.xml"))
+    _w(inc, "".join("%%include %s\n" % r for r in refs["leaf"]))
+    _w(imp, "<schema>%s</schema>" % "".join("<import src=%s/>" % _qa(r) for r in refs["comp"]))
+    _w(ext, "<schema extends=%s/>" % _qa(" ".join(refs["base"])))
+    return {"include": inc, "import-src": imp, "extends": ext}
+
+
+NEIGHBOUR_CONF = "k NEIGHBOUR\ninc NEIGHBOUR\n"
+NEIGHBOUR_SCHEMA = "<schema><key name='who' default='NEIGHBOUR'/><key name='tag' default='NEIGHBOUR'/><multikey name='k'/><key name='inc'/></schema>"
+
+
+def add_neighbours(root):
+    """a name with a blank at an end differs from its neighbour without that blank only by that blank: give every such file
+    its neighbours (blanks at the ends of all components / of the whole relative path / of the first / of the last component
+    removed), holding something else, unless the tree has a file of that name already"""
+    made = 0
+    for d, _, fs in list(os.walk(root)):
+        for f in fs:
+            pth = os.path.join(d, f)
+            comps = os.path.relpath(pth, root).split(os.sep)
+            if os.path.islink(pth) or all(c == c.strip() for c in comps):
+                continue
+            with open(pth, encoding="utf-8") as fh:
+                text = NEIGHBOUR_SCHEMA if fh.read(7) == "<schema" else NEIGHBOUR_CONF
+            variants = [[c.strip() for c in comps], os.path.relpath(pth, root).strip().split(os.sep),
+                        [comps[0].strip()] + comps[1:], comps[:-1] + [comps[-1].strip()]]
+            for v in variants:
+                if v == comps or not all(v):
+                    continue
+                q = os.path.join(root, *v)
+                try:
+                    if not os.path.lexists(q):
+                        os.makedirs(os.path.dirname(q), exist_ok=True)
+                        _w(q, text)
+                        made += 1
+                except OSError:
+                    pass
+    return made
+
+
+def _load(ZConfig, kind, way, arg, schema=None):
+    """load a schema / a configuration through one of the entry points"""
+    if kind == "schema":
+        if way.startswith("fileobj"):
+            with open(arg, encoding="utf-8") as f:
+                return ZConfig.loadSchemaFile(f)
+        return ZConfig.loadSchema(arg)
+    if way.startswith("fileobj"):
+        with open(arg, encoding="utf-8") as f:
+            return ZConfig.loadConfigFile(schema, f)[0]
+    return ZConfig.loadConfig(schema, arg)[0]
+
+
+def _exc(e):
+    return "EXC:%s:%s" % (type(e).__name__, str(e)[:120])
+
+
+def _observe_refs(ZConfig, kind, way, arg, items, sch_k):
+    """the tags reached through a referrer of the given kind, in the order of items (or the exception)"""
+    try:
+        if kind == "include":
+            return list(_load(ZConfig, "config", way, arg, sch_k).k)
+        sc = _load(ZConfig, "schema", way, arg)
+        if kind == "import-src":
+            return [sc.gettype("ty%d" % it["i"]).getinfo("ik").getdefault().value for it in items]
+        return [sc.getinfo("bk%d" % it["i"]).getdefault().value for it in items]
+    except Exception as e:
+        return _exc(e)
+
+
+def run_sweep(ctx, ZConfig, root, outside):
+    sw = build_sweep(ctx.rng, root)
+    ctx.count("sweep:neighbour-files", add_neighbours(root))
+    sch_k = ZConfig.loadSchemaFile(io.StringIO("<schema><multikey name='k'/><key name='inc'/></schema>"))
+    items = sw["items"]
+    # (1) files named that way as TOP resources, through every entry point, from the root / their own directory / outside
+    for it in items:
+        for kind in ("config", "schema"):
+            pth = os.path.join(it["dir"], it["conf" if kind == "config" else "schema"])
+            want = [it["tag"], it["tag"]]
+            for cwd in (root, it["dir"], outside) if it["position"] != "pair" else (root, it["dir"]):
+                os.chdir(cwd)
+                for way, arg in ways(pth, cwd):
+                    ctx.evaluations += 1
+                    ctx.count("sweep:top-resource:" + kind)
+                    ctx.nontriv(("sweep", it["i"], kind, cwd == root, cwd == outside, way))
+                    try:
+                        r = _load(ZConfig, kind, way, arg, sch_k)
+                        got = [r.k[0] if len(r.k) == 1 else list(r.k), r.inc] if kind == "config" else \
+                              [r.getinfo("tag").getdefault().value, r.getinfo("who").getdefault().value]
+                    except Exception as e:
+                        got = _exc(e)
+                    if got != want:
+                        ctx.violate("the %s %r (%r %s the directory's and the file's name), loaded by %s %r from cwd %r: "
+                                    "(own content, content of the sibling it refers to) = %r, expected %r" % (
+                                        kind, os.path.relpath(pth, root), it["char"], WHERE[it["position"]], way, arg, cwd, got, want),
+                                    {"char": it["char"], "position": it["position"], "kind": kind, "file": os.path.relpath(pth, root), "cwd": cwd, "way": way,
+                                     "arg": arg, "got": got, "expected": want, "text": open(pth, encoding="utf-8").read(),
+                                     "files-nearby": sorted(os.listdir(it["dir"])), "root": root,
+                                     "directories-nearby": sorted(x for x in os.listdir(root) if x.strip() == os.path.basename(it["dir"]).strip())},
+                                    signature="C18:name-sweep:%s:%s:%s" % (kind, way, "exc" if isinstance(got, str) else "wrong-resource"))
+    # (2) files named that way as the TARGET of %include / <import src> / extends, per spelling of the reference
+    want = [it["tag"] for it in items]
+    for mode in REFMODES:
+        ref = sw["referrers"][mode]
+        for kind, pth in sorted(ref["files"].items()):
+            # (the referrers are plainly named files in the root: every entry point from a directory that is not the root,
+            # and the two that depend on the current directory from outside the tree as well)
+            for cwd in (items[len(items) // 2]["dir"], outside):
+                os.chdir(cwd)
+                for way, arg in ways(pth, cwd):
+                    if cwd == outside and way not in ("rel", "fileobj-rel"):
+                        continue
+                    ctx.evaluations += 1
+                    ctx.count("sweep:reference:%s:%s" % (kind, mode), len(items))
+                    ctx.nontriv(("sweep-ref", mode, kind, cwd == root, cwd == outside, way))
+                    got = _observe_refs(ZConfig, kind, way, arg, items, sch_k)
+                    if got == want:
+                        continue
+                    # which reference is it?  each one alone, from a referrer of its own
+                    culprit = None
+                    for n, it in enumerate(items):
+                        one = {k: [v[n]] for k, v in ref["refs"].items()}
+                        single = write_referrers(root, "one-" + mode, one, [it])[kind]
+                        g1 = _observe_refs(ZConfig, kind, way, dict(ways(single, cwd))[way], [it], sch_k)
+                        if g1 != [it["tag"]]:
+                            culprit = {"char": it["char"], "position": it["position"], "reference": one[{"include": "leaf", "import-src": "comp", "extends": "base"}[kind]][0],
+                                       "names the file": os.path.relpath(os.path.join(it["dir"], it[{"include": "leaf", "import-src": "comp", "extends": "base"}[kind]]), root),
+                                       "referrer": os.path.relpath(single, root), "referrer text": open(single, encoding="utf-8").read(), "got": g1, "expected": [it["tag"]]}
+                            break
+                    ctx.violate("%s references spelled %s, from a resource loaded by %s from cwd %r, do not reach the files of those names: %s" % (
+                        kind, mode, way, cwd, ("%r gives %r" % (culprit["reference"], culprit["got"])) if culprit else repr(got)[:200]),
+                        {"kind": kind, "spelling": mode, "cwd": cwd, "way": way, "arg": arg, "root": root, "culprit": culprit,
+                         "got": got, "expected": want, "referrer text": open(pth, encoding="utf-8").read()[:4000]},
+                        signature="C18:reference-sweep:%s:%s:%s" % (kind, mode, "exc" if isinstance(got, str) else "wrong-resource"))
+                    break       # one report per (spelling, kind, cwd)
+    return sw
 
 
 def ways(path, cwd):
@@ -217,12 +459,24 @@ def run(ctx):
     cwd0 = os.getcwd()
     base = "/dev/shm" if os.path.isdir("/dev/shm") else None
     ntrees = 60 if ctx.thorough() else 10
-    for _ in range(ntrees):
+    nsweeps = 12 if ctx.thorough() else 2
+    root0 = ctx.rng.randrange(len(ROOTNAMES))
+    for ti in range(ntrees):
         top = tempfile.mkdtemp(prefix="zcv c18-é ", dir=base)
-        root = os.path.join(top, "tree" + ctx.rng.choice(["", " x", "~1"]))
+        root = os.path.join(top, ROOTNAMES[(ti + root0) % len(ROOTNAMES)])
         os.makedirs(root)
         try:
-            t = build_tree(ctx.rng, root)
+            refmode = REFMODES[ti % len(REFMODES)]
+            ctx.count("tree:references-" + refmode)
+            t = build_tree(ctx.rng, root, refmode)
+            if ti < nsweeps:
+                # the alphabet sweep lives in the same root (its directories are named sd<i> with the character added)
+                run_sweep(ctx, ZConfig, root, os.path.dirname(root))
+            else:
+                ctx.count("tree:neighbour-files", add_neighbours(root))
+            for pth in (t["schema"], t["config"], t["import_schema"], t["linked_config"]):
+                nm = os.path.basename(pth)
+                ctx.count("tree:top-resource-name:" + ("blank-at-an-end" if nm != nm.strip() else "no-blank-at-an-end"))
             sl_reused = SchemaLoader()
             cl_reused = {}
             results = []
@@ -338,7 +592,12 @@ def run(ctx):
             for cwd in t["dirs"]:
                 os.chdir(cwd)
                 if good_schema is None:
-                    good_schema = ZConfig.loadSchema(t["schema"])
+                    try:
+                        good_schema = ZConfig.loadSchema(t["schema"])
+                    except Exception as e:
+                        ctx.violate("the schema of the tree does not load by its absolute path from %r: %s: %s" % (cwd, type(e).__name__, str(e)[:200]),
+                                    {"tree": _listing(root), "cwd": cwd, "schema": t["schema"]}, signature="C18:schema-by-path:%s" % type(e).__name__)
+                        break
                 for kind, paths in (("config", t["frag_configs"]), ("schema", t["frag_schemas"])):
                     for pth in paths:
                         for way, arg in ways(pth, cwd):
